@@ -17,7 +17,17 @@ from .frontend import REPO, PKG, AnalysisError
 
 def _load_variants():
     from .variants import VARIANTS
-    return list(VARIANTS) + seeded_variants() + benign_variants()
+    return list(VARIANTS) + seeded_variants() + benign_variants() + mech_variants()
+
+
+def mech_variants():
+    """whole-package mechanical behaviour-preserving refactorings (efa/mech.py), regenerated from the current tree on
+    every run: every rule must stay silent and decided on each of them"""
+    from .rules import load_all, RULES
+    from .mech import MODES
+    load_all()
+    return [dict(name=f"mechanical refactoring of the whole package: {m}", rules=sorted(RULES), edits=[], mech=m, names=[],
+                 expect="silent") for m in MODES]
 
 
 def benign_variants():
@@ -80,6 +90,9 @@ def run_variant(v, repo=None):
         err = apply_edits(tmp, v["edits"])
         if err:
             return v["name"], "skip", err
+        if v.get("mech"):
+            from .mech import transform_package
+            transform_package(v["mech"], os.path.join(repo, PKG), os.path.join(tmp, PKG))
         if v.get("patch"):
             import subprocess
             p = subprocess.run(["git", "apply", "-p1", v["patch"]], cwd=tmp, capture_output=True, text=True)
